@@ -222,6 +222,10 @@ def check(run, project):
     # number that was decoded (`NamedRange.by_number(n)` = the member with value n), else the bytes change on the way back
     from . import namedrange
     namedrange.check(run, "B7", project.module("tpmstream.spec.common.values"))
+    # B8 (= C01-W12): a generator of the decode core that is created and thrown away stands for bytes that are consumed
+    # (or an error that should stop the decode) without any event - the events no longer add up to the input
+    from .shared import discarded_generators
+    discarded_generators(run, project, "B8")
     run.floor("B5", 100, "primitive types")
 
 
